@@ -22,6 +22,8 @@ KIND = {
     "UnrecognizedDirectiveNode": "unknown",
 }
 
+PREPROC_EVENTS = {"Parsed", "BeginTU", "EndTU", "Enter", "Exit", "Visit", "Active", "Define", "Undef", "Once", "Resolve"}
+
 _items_cache = {}
 
 
@@ -94,6 +96,8 @@ def split_runs(events):
     seen_tu = False
     for ev in events:
         e = ev["ev"]
+        if e not in PREPROC_EVENTS:
+            continue                      # events of other layers (e.g. ParseArgs: see trace_cfg)
         if cur is None or (e == "Parsed" and not intu and seen_tu):
             cur = {"parsed": {}, "ev": []}
             runs.append(cur)
